@@ -180,6 +180,7 @@ def one(ctx: Ctx, cs, pname=None, **over):
 
 
 def run(ctx: Ctx):
+    kpx.enable_bystanders(ctx)
     ctx.rule = ('documents of the C01 generator; expected grid = source rows minus global comments, blank lines and all-null rows; '
                 'non-note cells verbatim, barlines = "="/"==" + type + fermata (number removed), each note/rest checked structurally on '
                 'the eKern export (duration marks multiset, pitch letters, accidental, signifier set; chord notes: own <= exported <= '
